@@ -3,11 +3,13 @@
    model's semantics of the builtin called `name` on converted arguments (Sem/Eval.v), `off` the
    offset of the local zone (irrelevant here).  Ok = returned value, Panic = Go run-time panic
    (slice bounds), Unk = not modelled.
-   NOT COVERED (the model answers Unk): regexp; lower/upper/trim on strings with a non-ASCII
-   byte; replace with an empty pattern (see regexp_not_modelled, trim_non_ascii,
-   replace_empty_pattern). *)
+   NOT COVERED (the model answers Unk): regexp; replace with an empty pattern (see regexp_not_modelled,
+   replace_empty_pattern).  lower / upper / trim beyond ASCII follow the pinned Unicode tables
+   (case_and_trim_unicode ff.). *)
 From Coq Require Import String Ascii.
-From Formula Require Import Sem.Eval Proofs.BuiltinFacts.
+From Coq Require Import List ZArith.
+From Formula Require Import Base.Utf8 Lex.CaseTables Lex.CaseMap Gen.ImplTables Tie.TablesTie Sem.Eval Proofs.BuiltinFacts Proofs.CaseMapFacts.
+Import ListNotations.
 Local Open Scope Z_scope.
 
 (* ---- the primitives of the model: prefix, suffix, strings.Index ---- *)
@@ -279,12 +281,44 @@ Theorem lower_upper_ascii : forall off s l u, all_ascii s = true ->
   slen l = slen s /\ slen u = slen s.
 Proof. exact BuiltinFacts.lower_upper_ascii. Qed.
 
-(* non-ASCII input: Unicode case mapping and Unicode white space are not modelled *)
-Theorem trim_non_ascii : forall off s, all_ascii s = false ->
-  builtin_apply off (str "trim") [VStr s] = Unk /\
-  builtin_apply off (str "lower") [VStr s] = Unk /\
-  builtin_apply off (str "upper") [VStr s] = Unk.
+(* ---- beyond ASCII: every character is mapped by the simple case mapping of the Unicode tables (pinned in
+   Lex/CaseTables.v and proved equal, on every run, to the tables regenerated by applying the builtins of /repo's
+   working tree to every one-character string); bytes that are not valid UTF-8 become U+FFFD; trim removes the
+   leading and trailing characters that are Unicode white space ---- *)
+Theorem case_and_trim_unicode : forall off s, all_ascii s = false ->
+  builtin_apply off (str "trim") [VStr s] = Ok (VStr (CaseMap.trim_utf8 s)) /\
+  builtin_apply off (str "lower") [VStr s] = Ok (VStr (CaseMap.lower_utf8 s)) /\
+  builtin_apply off (str "upper") [VStr s] = Ok (VStr (CaseMap.upper_utf8 s)).
 Proof. exact BuiltinFacts.trim_non_ascii. Qed.
+
+Theorem upper_maps_each_character : forall s,
+  CaseMap.upper_utf8 s = flat_map (fun p => Utf8.encode_rune (CaseMap.to_upper_rune (fst p))) (Utf8.decode_all s).
+Proof. reflexivity. Qed.
+
+Theorem lower_maps_each_character : forall s,
+  CaseMap.lower_utf8 s = flat_map (fun p => Utf8.encode_rune (CaseMap.to_lower_rune (fst p))) (Utf8.decode_all s).
+Proof. reflexivity. Qed.
+
+Theorem case_tables_are_the_code's :
+  ImplTables.impl_upper_ranges = CaseTables.upper_ranges /\ ImplTables.impl_lower_ranges = CaseTables.lower_ranges /\
+  ImplTables.impl_case_odd = [].
+Proof. exact TablesTie.case_tables_tie. Qed.
+
+Theorem mapped_characters_are_characters : forall r, CaseMapFacts.scalar r = true ->
+  CaseMapFacts.scalar (CaseMap.to_upper_rune r) = true /\ CaseMapFacts.scalar (CaseMap.to_lower_rune r) = true.
+Proof. exact (fun r H => conj (CaseMapFacts.to_upper_scalar r H) (CaseMapFacts.to_lower_scalar r H)). Qed.
+
+Theorem case_mapping_agrees_on_ascii : forall s, Forall (fun b => 0 <= b < 128)%Z s ->
+  CaseMap.upper_utf8 s = to_upper_ascii s /\ CaseMap.lower_utf8 s = to_lower_ascii s.
+Proof. exact (fun s H => conj (CaseMapFacts.upper_utf8_ascii s H) (CaseMapFacts.lower_utf8_ascii s H)). Qed.
+
+Theorem case_mapping_examples :
+  CaseMap.upper_utf8 [104; 195; 169; 255; 199; 134; 225; 131; 144]%Z = [72; 195; 137; 239; 191; 189; 199; 132; 225; 178; 144]%Z /\
+  CaseMap.to_upper_rune 454 = 452%Z /\ CaseMap.to_upper_rune 453 = 452%Z /\ CaseMap.to_lower_rune 452 = 454%Z /\
+  CaseMap.to_upper_rune 4304 = 7312%Z /\ CaseMap.to_upper_rune 962 = 931%Z /\ CaseMap.to_lower_rune 1046 = 1078%Z /\
+  CaseMap.to_upper_rune 66600 = 66560%Z /\ CaseMap.to_lower_rune 304 = 105%Z /\ CaseMap.to_upper_rune 223 = 223%Z /\
+  CaseMap.to_upper_rune 65533 = 65533%Z /\ CaseMap.lower_utf8 [240; 144; 144; 128]%Z = [240; 144; 144; 168]%Z.
+Proof. exact CaseMapFacts.case_examples. Qed.
 
 (* ---- join and includes agree with element-wise concatenation and membership ---- *)
 
@@ -353,10 +387,16 @@ Print Assumptions replace_same_length.
 Print Assumptions replace_empty_pattern.
 Print Assumptions trim_spec.
 Print Assumptions trim_idempotent.
+Print Assumptions case_and_trim_unicode.
+Print Assumptions upper_maps_each_character.
+Print Assumptions lower_maps_each_character.
+Print Assumptions case_tables_are_the_code's.
+Print Assumptions mapped_characters_are_characters.
+Print Assumptions case_mapping_agrees_on_ascii.
+Print Assumptions case_mapping_examples.
 Print Assumptions lower_spec.
 Print Assumptions upper_spec.
 Print Assumptions lower_upper_ascii.
-Print Assumptions trim_non_ascii.
 Print Assumptions join_spec.
 Print Assumptions join_cons.
 Print Assumptions includes_spec.
